@@ -151,6 +151,7 @@ package text
 //@   requires index.setCache != nil && unheld(index.setCache.itemsMu) && index.setCache.items != nil && forallv(k string, contains(index.setCache.items, k) ==> index.setCache.items[k] != nil)
 //@   requires index.docCache != nil && unheld(index.docCache.itemsMu) && index.docCache.items != nil && forallv(k uint64, contains(index.docCache.items, k) ==> index.docCache.items[k] != nil)
 //@   ensures ncalls(Analyse) == 1 && callarg(Analyse, 1, 0) == index.analyser && callarg(Analyse, 1, 1) == options.Value
+//@   ensures result2 == nil && filter != nil ==> ncalls(And) == 1 && callarg(And, 1, 1) == filter
 //@   ensures result2 == nil ==> len(result1) <= options.Limit || ncalls(Clear) == 0
 //@   ensures result2 == nil && ncalls(Clear) == 1 ==> len(result1) == options.Limit
 //@   ensures result2 == nil && options.Weight != nil ==> forall(k, 0, len(result1), result1[k].Score != nil && result1[k].HybridScore == *result1[k].Score * *options.Weight)
